@@ -35,7 +35,11 @@ FORMS = {
     5: "dataset(body).with_options(P).with_default_options(D)",
     6: "dataset(body, dispatch, callback, effects).with_default_options(D).with_options(P)",
     7: "dataset(body, options=P).with_options(P2 = P with S.X replaced)  (pre-set sections accumulate)",
+    8: "WithDefaultOptions(WithDefaultOptions(X, D), D2)  (stacked defaults: the OUTER ones win over the inner)",
+    9: "WithOptions(WithOptions(X, P), P2)  (stacked pre-sets: the INNER ones win)",
 }
+D2 = {"A": 99, "S": {"Y": 98, "X": 97}}
+P2B = {"A": 89, "S": {"X": 88}}
 
 
 def _build(form, P, D, log):
@@ -67,6 +71,10 @@ def _build(form, P, D, log):
     if form == 7:
         P2 = {"S": {"X": 77}}
         return dataset.nocache(_body, options=P).with_options(P2), lambda o: ref_overlay(ref_overlay(o, P), P2), False
+    if form == 8:
+        return WithDefaultOptions(WithDefaultOptions(X, D), D2), lambda o: ref_overlay(D, ref_overlay(D2, o)), False
+    if form == 9:
+        return WithOptions(WithOptions(X, P), P2B), lambda o: ref_overlay(ref_overlay(o, P2B), P), False
     raise ValueError(form)
 
 
@@ -82,7 +90,7 @@ def _ref_reader(o):
     return (g("A", -1), g("S.X", -1), g("S.Y", -1), g("S.T.Z", -1), g("S", -2), g("S.T", -3))
 
 
-@harness("C08", lemma="overlay", cubes={"form": [0, 1, 2, 4, 5, 6], "fp0": [False, True], "fp1": [False, True], "fp2": [False, True]},
+@harness("C08", lemma="overlay", cubes={"form": [0, 1, 2, 4, 5, 6, 8, 9], "fp0": [False, True], "fp1": [False, True], "fp2": [False, True]},
          example=dict(form=2, fp0=True, fp1=True, fp2=False, p0=1, p1=2, p2=3, fd0=True, fd1=True, fd2=False, d0=4, d1=5, d2=6,
                       fo0=False, fo1=True, fo2=True, fo3=True, o0=7, o1=8, o2=9, o3=10),
          timeout=300,
@@ -106,7 +114,7 @@ def overlay_rest(form: int, fp0: bool, fp1: bool, fp2: bool, p0: int, p1: int, p
     return _overlay(form, fp0, fp1, fp2, p0, p1, p2, fd0, fd1, fd2, d0, d1, d2, fo0, fo1, fo2, fo3, o0, o1, o2, o3, False)
 
 
-@harness("C08", lemma="no-mutation", cubes={"form": list(FORMS)},
+@harness("C08", lemma="no-mutation", cubes={"form": [0, 1, 2, 3, 4, 5, 6, 7]},
          example=dict(form=2, p0=1, p1=2, p2=3, d0=4, d1=5, d2=6, fo0=False, fo1=True, fo2=True, fo3=True, o0=7, o1=8, o2=9, o3=10),
          timeout=600, bounds="all 8 forms; P and D fully populated, o symbolic (presence and values); evaluate, validate, keys and explain "
                              "are all called", what="P, D and o are unchanged (deep comparison) after evaluate, validate, keys and explain")
